@@ -124,24 +124,35 @@ Ltac wf_tac :=
     | progress cbn [vi_min vi_max vi_terms vo_min vo_max vo_default vo_aggregation vo_defuzzifier vo_terms vi_name vo_name
                     bl_conjunction bl_disjunction bl_implication bl_activation bl_rules en_inputs en_outputs en_blocks
                     shape_args fst snd ex_rule ru_antecedent ru_consequent ru_weight]
-    | (cbn [In]; tauto) | discriminate | (vm_compute; reflexivity) ].
+    | match goal with
+      | |- In _ _ => cbn [In]; tauto
+      | |- _ <> _ => discriminate
+      | |- _ = _ => vm_compute; reflexivity
+      end ].
+Ltac rep_tac :=
+  repeat first
+    [ exact I | split | apply Forall_nil | apply Forall_cons
+    | progress unfold input_rep, output_rep, block_rep, term_rep, rule_rep, height_rep
+    | progress cbn [vi_terms vi_value vo_terms vo_value vo_previous vo_fuzzy_name vo_fuzzy_terms vo_name bl_rules ex_rule
+                    ru_enabled ru_weight ru_loaded ru_degree ru_triggered shape_height]
+    | match goal with |- _ = _ => vm_compute; reflexivity end ].
 (* the hypotheses of the theorems are inhabited by a non-trivial engine (every kind of term, infinite shoulders, a
    subnormal, quotes and a backslash in a description, disabled variable and block, weights 1 and 0.5) *)
 Example C15_example_wf : engine_wf (N:=NF) E0 (ex_engine true) /\ engine_rep E0 (ex_engine true)
                           /\ is_close (N:=NF) E0 (lit 1 0) (lit 1 0) = true.
 Proof.
   split; [|split; [|vm_compute; reflexivity]].
-  - unfold engine_wf, ex_engine. wf_tac.
-  - unfold engine_rep, ex_engine. repeat (split || constructor); vm_compute; reflexivity.
+  - unfold engine_wf, ex_engine. cbn [en_inputs en_outputs en_blocks]. repeat split. all: wf_tac.
+  - unfold engine_rep, ex_engine. cbn [en_inputs en_outputs en_blocks]. rep_tac.
 Qed.
 (* ... which the four alias settings print and rebuild identically *)
-Example C15_example_roundtrip : forall s, In s ["fl"; ""; "*"; "fzl"] ->
-  exists e, repr (N:=NF) E0 (alias_of s) (engine_val (ex_engine true)) = Ok e
-            /\ construct E0 (alias_of s) e = Ok (engine_val (ex_engine true)).
-Proof.
-  intros s H. cbn [In] in H.
-  repeat (destruct H as [<-|H]; [eexists; split; [vm_compute; reflexivity|vm_compute; reflexivity]|]). contradiction.
-Qed.
+Definition rebuilt_ok (s : string) (v : pyval float) : bool :=
+  match repr E0 (alias_of s) v with
+  | Ok e => result_eqb (pyval_eqb fsame) (construct E0 (alias_of s) e) (Ok v)
+  | Err _ => false
+  end.
+Example C15_example_roundtrip : forallb (fun s => rebuilt_ok s (engine_val (ex_engine true))) ["fl"; ""; "*"; "fzl"] = true.
+Proof. vm_compute. reflexivity. Qed.
 (* ... while a disabled rule comes back enabled (finding F5), and only that changes *)
 Example C15_example_rule_enabled_lost :
   normalize (N:=NF) E0 (engine_val (ex_engine false)) = Ok (engine_val (ex_engine true)).
@@ -153,4 +164,10 @@ Example C15_example_encapsulated_names :
              /\ run_module E0 m = Err ESyntax) /\
   (exists m, encapsulate (N:=NF) E0 (alias_of "*") (VObj "Engine" [("name", VStr "Engine"); ("description", VStr ""); ("input_variables", VList []); ("output_variables", VList []); ("rule_blocks", VList [])]) = Ok m
              /\ run_module E0 m = Err EInternal).
-Proof. split; eexists; split; vm_compute; reflexivity. Qed.
+Proof.
+  split.
+  - exists [SImport "fuzzylite" (Some "fl"); SClassInit "" "engine" (ECall ["fl"; "Engine"] [] [("name", EStr ""); ("input_variables", EList []); ("output_variables", EList []); ("rule_blocks", EList [])])].
+    split; vm_compute; reflexivity.
+  - exists [SImportStar "fuzzylite"; SClassInit "Engine" "engine" (ECall ["Engine"] [] [("name", EStr "Engine"); ("input_variables", EList []); ("output_variables", EList []); ("rule_blocks", EList [])])].
+    split; vm_compute; reflexivity.
+Qed.
